@@ -175,8 +175,22 @@ def g_c18(rng, tier):
             elif len(o[1]) == 1 and not (c.get("np") and c["np"][0] in ("clusters", "knearest") and o[0] == "fit"):
                 o = (o[0] + "S", o[1], o[2], list(o[3][0]))
         ops.append(o)
-    # single-decision batches and queries at the end
     arms = c["arms"]
+    if rng.random() < 0.3 and not (c.get("np") and c["np"][0] in ("clusters", "knearest")):
+        # a RE-FIT with Series contexts of another width than the bandit was trained on: the Series of a training call is read by
+        # the number of decisions, never by what the bandit remembers
+        d2 = d + 1 if d == 1 or rng.random() < 0.5 else 1
+        if d2 == 1 and rng.random() < 0.5:
+            n2 = rng.randint(3, 6)
+            ops.append(("fitS", [rng.choice(arms) for _ in range(n2)], [1.0] * n2, [float(rng.randint(0, 4)) for _ in range(n2)]))
+        else:
+            ops.append(("fitS", [arms[0]], [1.0], [float(rng.randint(0, 4)) for _ in range(d2)]))
+        if d2 == 1 or ops[-1][0] == "fitS" and len(ops[-1][1]) > 1:
+            d = 1
+        else:
+            d = d2
+        ops.append(("pexpS", [float(rng.randint(0, 4)) for _ in range(d)] if d > 1 else [float(rng.randint(0, 4)) for _ in range(2)]))
+    # single-decision batches and queries at the end
     ops.append(("pfitS", [arms[0]], [1.0], [float(rng.randint(0, 4)) for _ in range(d)]))
     ops.append(("pexpS", [float(rng.randint(0, 4)) for _ in range(d)] if d > 1 else [float(rng.randint(0, 4)) for _ in range(rng.choice([1, 2, 3]))]))
     c["ops"] = ops
